@@ -192,6 +192,31 @@ func c17Mutate(r *rand.Rand, d *OMap) string {
 	}
 }
 
+// c17BigAnnotations gives the Spec and its devices large annotation sets with
+// keys of their own: the 256 KiB limit is per annotated object, never for the
+// document, and most of the time every object stays within it.
+func c17BigAnnotations(r *rand.Rand, d *OMap) string {
+	sizes := [][]int{{140 << 10, 140 << 10, 140 << 10}, {200 << 10, 100 << 10, 0}, {0, 150 << 10, 150 << 10}, {262144, 262144, 262144}, {100 << 10, 262145, 0}}[r.Intn(5)]
+	set := func(o *OMap, tag string, total int) {
+		if total == 0 {
+			return
+		}
+		k1, k2 := "big-"+tag, "k-"+tag
+		o.Set("annotations", om(k1, strings.Repeat("x", total-len(k1)-len(k2)-1), k2, "v"))
+	}
+	set(d, "spec", sizes[0])
+	if v, ok := d.Get("devices"); ok {
+		if l, ok := v.([]any); ok {
+			for i, dv := range l {
+				if dev, ok := dv.(*OMap); ok && i < 2 {
+					set(dev, fmt.Sprintf("dev%d", i), sizes[1+i])
+				}
+			}
+		}
+	}
+	return fmt.Sprintf("annotation sets of %v bytes (spec, device 0, device 1)", sizes)
+}
+
 // annotationsWellFormed mirrors what the content checks look at.
 func annotationsWellFormed(doc any) bool {
 	root, ok := doc.(map[string]any)
@@ -318,6 +343,11 @@ func checkC17(c *Ctx) {
 				}
 			}
 			d := specDoc(spec)
+			if chance(r, 4) {
+				muts = append(muts, c17BigAnnotations(r, d))
+				spec = nil
+				c.Count("documents_with_large_annotation_sets", 1)
+			}
 			if k >= 4 { // most documents are mutated
 				n := 1 + r.Intn(3)
 				for i := 0; i < n; i++ {
